@@ -102,7 +102,11 @@ func signature(group string, o *Outcome) string {
 	if len(msg) > 120 {
 		msg = msg[:120]
 	}
-	return fmt.Sprintf("group=%s kind=%s msg=%s at=%s", group, o.Kind, msg, site)
+	src := ""
+	if o.Notes != nil {
+		src = o.Notes["source"]
+	}
+	return fmt.Sprintf("group=%s kind=%s msg=%s at=%s src=%s", group, o.Kind, msg, site, src)
 }
 
 var reDigits = regexp.MustCompile(`\d+`)
